@@ -641,7 +641,7 @@ class ExcFlow:
                 import copy
                 arg = Sub().visit(copy.deepcopy(arg))
                 t = ast.Compare(left=t.left, ops=t.ops, comparators=[ast.Name(id='__guarded', ctx=ast.Load()), t.comparators[1]])
-            names = {x.id for x in ast.walk(arg) if isinstance(x, ast.Name)}
+            names = {x.id for x in ast.walk(arg) if isinstance(x, ast.Name) and not isinstance(ev_const(x), int)}
             if len(names) == 1:
                 v = names.pop()
                 iv = None
